@@ -154,12 +154,22 @@ func (rc *realController) Finalize(release *v1beta1.BatchRelease) error {
 		patchData.UpdateMinReadySeconds(setting.MinReadySeconds)
 		patchData.UpdateMaxSurge(setting.MaxSurge)
 		patchData.UpdateMaxUnavailable(setting.MaxUnavailable)
+		// the hold (partition = 100%, set by the webhook and kept by Initialize) ends with the release, also when
+		// no batch was ever upgraded
+		patchData.UpdatePartiton(nil)
 		patchData.DeleteAnnotation(v1beta1.OriginalDeploymentStrategyAnnotation)
 		patchData.DeleteAnnotation(util.BatchReleaseControlAnnotation)
 		if err := rc.client.Patch(context.TODO(), c, patchData); err != nil {
 			return err
 		}
 		klog.InfoS("Finalize: cloneset bluegreen release: wait all pods updated and ready", "cloneset", klog.KObj(rc.object))
+	} else if rc.object != nil && rc.object.DeletionTimestamp == nil && rc.object.Spec.UpdateStrategy.Partition != nil {
+		// the release ends before it ever claimed the workload: only the webhook's hold is in place, lift it
+		patchData := patch.NewClonesetPatch()
+		patchData.UpdatePartiton(nil)
+		if err := rc.client.Patch(context.TODO(), util.GetEmptyObjectWithKey(rc.object), patchData); err != nil {
+			return err
+		}
 	}
 
 	// wait all pods updated and ready
